@@ -1,7 +1,7 @@
 CONSTANTS R = 2
   N = 1
-  Find = FALSE
-  Relist = TRUE
+  Find = TRUE
+  Relist = FALSE
   MaxRelist = 3
 SPECIFICATION Spec
 INVARIANTS C06_QueryLinearizable C06_ClosingRunIsShown
